@@ -320,36 +320,15 @@ func genArgFault(r *Rng, d *DeclSpec, p *Plan, twinCalls []Call) (f ArgFault, ok
 
 // envFullOf computes the environment key of an option from the spec.
 func envFullOf(d *DeclSpec, target optInfo) string {
-	res := ""
-	var rec func(g *GroupSpec, ens []string) bool
-	rec = func(g *GroupSpec, ens []string) bool {
-		if g.EnvNamespace != "" {
-			ens = append(append([]string{}, ens...), g.EnvNamespace)
-		}
-		for _, o := range g.Opts {
-			if o == target.O {
-				res = strings.Join(append(append([]string{}, ens...), o.Env), envNSDelim(d))
-				return true
-			}
-		}
-		for _, s := range g.Sub {
-			if rec(s, ens) {
-				return true
-			}
-		}
-		return false
+	if target.EnvFull != "" || target.O == nil || target.O.Env == "" {
+		return target.EnvFull
 	}
-	d.eachGroupSpec(func(g *GroupSpec, cp []string, own bool) {
-		if res == "" {
-			// only start from groups that are roots of their tree: eachGroupSpec also
-			// visits nested groups, for which rec from the root already answered
-			rec(g, nil)
+	for _, oi := range optInfos(d) {
+		if oi.O == target.O {
+			return oi.EnvFull
 		}
-	})
-	// the walk above may start at a nested group (without its parents'
-	// namespaces) only if the option was not found from an earlier root, which
-	// cannot happen because roots are visited before their children.
-	return res
+	}
+	return ""
 }
 
 // applyArgFault returns the faulty token list.
